@@ -18,6 +18,119 @@ def test_sharding():
         assert seen == list(range(n))
 
 
+def test_lock_model_conformance():
+    """The lock model of props.c19 (nothing locked at construction; exclusive; a waiter gets the lock when the holder
+    releases, or AlreadyLocked when the time-out fires first; death releases; the lock file is created on acquire) against
+    the real portalocker driven in two real processes."""
+    import multiprocessing as mp
+    import os
+    import shutil
+    import tempfile
+    import portalocker
+    d = tempfile.mkdtemp(prefix="verif-lock-", dir="/dev/shm")
+    path = os.path.join(d, "cache_lock.lock")
+    ctx = mp.get_context("fork")
+
+    def child(conn, script):
+        lock = portalocker.Lock(path, timeout=script.get("timeout", 0.3))
+        conn.send("constructed")
+        for cmd in iter(conn.recv, "quit"):
+            if cmd == "acquire":
+                try:
+                    lock.acquire()
+                    conn.send("acquired")
+                except portalocker.exceptions.LockException as e:
+                    conn.send("LockException:" + type(e).__name__)
+            elif cmd == "release":
+                lock.release()
+                conn.send("released")
+            elif cmd == "die":
+                conn.send("dying")
+                os._exit(0)
+        conn.send("bye")
+
+    def spawn(timeout=0.3):
+        a, b = ctx.Pipe()
+        p = ctx.Process(target=child, args=(b, {"timeout": timeout}))
+        p.start()
+        assert a.recv() == "constructed"
+        return p, a
+
+    def ask(conn, cmd):
+        conn.send(cmd)
+        return conn.recv()
+
+    traces = 0
+    try:
+        # 1. construction locks nothing and creates nothing
+        p1, c1 = spawn()
+        assert not os.path.exists(path)
+        p2, c2 = spawn()
+        assert ask(c2, "acquire") == "acquired"
+        assert os.path.exists(path)                      # 5. acquire creates the file
+        traces += 2
+        # 2. exclusive: the second acquirer times out with a LockException subclass
+        assert ask(c1, "acquire").startswith("LockException:")
+        traces += 1
+        # 3. release hands the lock over
+        assert ask(c2, "release") == "released"
+        assert ask(c1, "acquire") == "acquired"
+        traces += 1
+        # 4. death of the holder releases the lock
+        assert ask(c1, "die") == "dying"
+        p1.join(5)
+        assert ask(c2, "acquire") == "acquired"
+        traces += 1
+        # 6. a waiter with a long time-out gets the lock once the holder releases
+        p3, c3 = spawn(timeout=5)
+        c3.send("acquire")
+        import time
+        time.sleep(0.3)
+        assert not c3.poll()                              # still blocked
+        assert ask(c2, "release") == "released"
+        assert c3.recv() == "acquired"
+        traces += 1
+        # 7. release is idempotent for the model's purposes
+        assert ask(c3, "release") == "released"
+        traces += 1
+        for c in (c2, c3):
+            c.send("quit")
+            c.recv()
+        for p in (p2, p3):
+            p.join(5)
+    finally:
+        shutil.rmtree(d, ignore_errors=True)
+    assert traces == 7
+    return traces
+
+
+def test_scheduler_enumeration():
+    """Two threads of two steps each: no preemption gives the 2 serial orders, unbounded gives all 6 interleavings."""
+    from mc import sched
+    seen = set()
+
+    def make(choices):
+        order = []
+        holder = {}
+
+        def body(tag):
+            def f():
+                for i in range(2):
+                    holder["x"].point("step", f"{tag}{i}")
+                    order.append(f"{tag}{i}")
+                return tag
+            return f
+        x = sched.Execution([("A", body("a"), False), ("B", body("b"), False)], choices, crash_allowed=False)
+        holder["x"] = x
+        x.run()
+        x.order = tuple(order)
+        return x
+    for bound, want in ((0, 2), (1, 4), (4, 6)):
+        seen.clear()
+        sched.explore(make, bound, lambda x: seen.add(x.order))
+        assert len(seen) == want, (bound, len(seen), seen)
+
+
 def main():
     tests = [v for k, v in sorted(globals().items()) if k.startswith("test_")]
     for t in tests:
